@@ -471,7 +471,7 @@ theorem readInFrame_spec (s : H3Stream) (k : Nat) (hpt : s.parsedTrailer = false
     r.2.parsedTrailer = false ∧
     (r.1.2 = none → expS s = r.1.1 ++ expS r.2 ∧ (WholeS r.2 → WholeS s)) ∧
     (r.1.2 ≠ none → r.1.1 = []) ∧
-    (r.1.2 = some .eof → WholeS s) := by
+    (r.1.2 = some .eof → WholeS s ∧ expS s = []) := by
   unfold readInFrame
   rcases hr : s.net.read (min k s.remInFrame) with ⟨od, n'⟩
   cases od with
@@ -500,8 +500,10 @@ theorem readInFrame_spec (s : H3Stream) (k : Nat) (hpt : s.parsedTrailer = false
       · cases hf : s.net.fin with
         | reset => simp [hf, NetEnd.toH3, netend_beq] at h
         | eof => simp only [hf, netend_beq, true_and] at hc; omega
-    refine ⟨by rw [hr0]; omega, ?_⟩
-    rw [hemp, hr0]; simp; exact Whole.nil _
+    refine ⟨⟨by rw [hr0]; omega, ?_⟩, ?_⟩
+    · rw [hemp, hr0]; simp; exact Whole.nil _
+    · simp only [expS, hpt, Bool.false_eq_true, if_false, hr0, hemp, dataIn_zero]
+      exact dataFrom_none _ (by simp [decHdr, decVarint])
 
 /-- **One `stream.Read` against the specification**: data handed out is the next part of the DATA
 bytes the stream holds; an error comes without data; a clean `io.EOF` only where the rest of the
@@ -510,7 +512,7 @@ theorem readR_spec (s : H3Stream) (k : Nat) (hi : InvS s) :
     InvS (readR s k).2 ∧
     ((readR s k).1.2 = none → expS s = (readR s k).1.1 ++ expS (readR s k).2 ∧ (WholeS (readR s k).2 → WholeS s)) ∧
     ((readR s k).1.2 ≠ none → (readR s k).1.1 = []) ∧
-    ((readR s k).1.2 = some .eof → WholeS s) := by
+    ((readR s k).1.2 = some .eof → WholeS s ∧ expS s = []) := by
   by_cases hrem : s.remInFrame ≠ 0
   · rw [show readR s k = readInFrame s k from by unfold readR; rw [if_pos hrem]]
     have hpt : s.parsedTrailer = false := by
@@ -535,7 +537,8 @@ theorem readR_spec (s : H3Stream) (k : Nat) (hi : InvS s) :
       simp only []
       refine ⟨hi, by simp, by simp, ?_⟩
       intro h; simp at h; subst h
-      exact hwhole0 (hscan.eof rfl)
+      refine ⟨hwhole0 (hscan.eof rfl), ?_⟩
+      rw [hexp0, hscan.nodata (by intro l h; simp at h)]; simp
     | ok f =>
       cases f with
       | settings =>
@@ -558,7 +561,7 @@ theorem readR_spec (s : H3Stream) (k : Nat) (hi : InvS s) :
               have : ({ s with net := n', remInFrame := l } : H3Stream).parsedTrailer = false := hpt
               rw [this] at h2; exact h2
             exact hwhole0 (by rw [hpt]; exact hw h1 h2' hpt)
-          refine ⟨fun h => by rw [a] at h; simp at h, ?_, c, fun h => hw1 (d h)⟩
+          refine ⟨fun h => by rw [a] at h; simp at h, ?_, c, fun h => ⟨hw1 (d h).1, hexp1.symm.trans (d h).2⟩⟩
           intro h
           obtain ⟨e1, e2⟩ := b h
           exact ⟨hexp1.symm.trans e1, fun x => hw1 (e2 x)⟩
@@ -617,7 +620,7 @@ theorem bodyReadR_spec (b : H3Body) (k : Nat) (hi : InvS b.str) :
       expS b.str = (bodyReadR b k).1.1 ++ expS (bodyReadR b k).2.str ∧
       (WholeS (bodyReadR b k).2.str → WholeS b.str)) ∧
     (∃ t, expS b.str = (bodyReadR b k).1.1 ++ t) ∧
-    ((bodyReadR b k).1.2 = some .eof → WholeS b.str) := by
+    ((bodyReadR b k).1.2 = some .eof → WholeS b.str ∧ expS b.str = [] ∧ (bodyReadR b k).1.1 = []) := by
   rcases bodyReadR_cases b k with ⟨_, h⟩ | ⟨_, k', _, _, h⟩
   · rw [h]; exact ⟨hi, by simp, ⟨expS b.str, by simp⟩, by simp⟩
   · obtain ⟨a, bb, c, d⟩ := readR_spec b.str k' hi
@@ -630,7 +633,7 @@ theorem bodyReadR_spec (b : H3Body) (k : Nat) (hi : InvS b.str) :
     · exact ⟨a, by simp, hex, by simp⟩
     · split
       · exact ⟨a, by simp, hex, by simp⟩
-      · exact ⟨a, bb, hex, d⟩
+      · exact ⟨a, bb, hex, fun h => ⟨(d h).1, (d h).2, c (by simp only [] at h; simp [h])⟩⟩
 
 /-- **Every run hands out a prefix of the DATA bytes the stream holds.** -/
 theorem run_prefix (b : H3Body) (ks : List Nat) (hi : InvS b.str) :
@@ -650,25 +653,27 @@ theorem run_prefix (b : H3Body) (ks : List Nat) (hi : InvS b.str) :
 
 /-- **A run that ends with a clean `io.EOF` started where the stream is a whole number of frames.** -/
 theorem run_eof_whole (b : H3Body) (ks : List Nat) (hi : InvS b.str)
-    (h : lastErr (bodyRunR b ks).1 = some .eof) : WholeS b.str := by
+    (h : lastErr (bodyRunR b ks).1 = some .eof) : WholeS b.str ∧ outBytes (bodyRunR b ks).1 = expS b.str := by
   induction ks generalizing b with
   | nil => simp [bodyRunR_nil, lastErr] at h
   | cons k ks ih =>
-    rw [bodyRunR_cons] at h
+    rw [bodyRunR_cons] at h ⊢
     obtain ⟨a, bb, _, d⟩ := bodyReadR_spec b k hi
     cases he : (bodyReadR b k).1.2 with
     | some e =>
       rw [he] at h
       simp only [lastErr_single] at h
       injection h with h; subst h
-      exact d he
+      obtain ⟨d1, d2, d3⟩ := d he
+      exact ⟨d1, by simp [outBytes, d2, d3]⟩
     | none =>
       rw [he] at h
-      simp only [] at h
+      simp only [] at h ⊢
       by_cases hne : (bodyRunR (bodyReadR b k).2 ks).1 = []
       · rw [hne] at h; simp [lastErr] at h
       · rw [lastErr_cons_ne _ _ hne] at h
-        exact (bb he).2 (ih _ a h)
+        obtain ⟨w, o⟩ := ih _ a h
+        exact ⟨(bb he).2 w, by simp only [outBytes_cons]; rw [o, (bb he).1]⟩
 
 /-! ### well-formed frame sequences and cuts inside a frame -/
 
